@@ -252,8 +252,12 @@ _amend("C17", "text", "PARTIAL: that every error the lexer/parser/interpreter pr
        "For the rule LEXER well-placedness is a theorem over all lines (Props/C17Lex, over the lexer port): the span of every RuleSyntaxError of lexer.rs lies within the "
        "line (lexLine_error_span), hence every rule line the lexer rejects formats without panic with its carets inside the line (lexer_error_formats = composition with "
        "format_well_placed); and the tokens handed to the parser have non-empty, consecutive spans inside the line, the last one Eol at [len, len+1) (lexLine_token_spans). "
-       "PARTIAL: that parser and interpreter errors are well placed is not proved - the parser is ported and its error spans are compared with the implementation's on ~40k "
-       "lines per run (parse-ops), but the invariant over its item positions has no theorem; it is decided by the c17-spec search:")
+       "For the rule PARSER (ported, its error spans compared with the implementation's on ~40k lines per run, parse-ops) the 24 error variants that carry a TOKEN and the 3 "
+       "that carry a column are proved well placed on every line (Props/C17Parse.parseLine_error_spans, parser_error_formats): the token is always the parser's current token, "
+       "which is a token of the lexer's list or the Eol the parser makes up after a comment - whose position is the token INDEX (the two units the property text mentions), still "
+       "inside [0, len+1] because a line of len characters has at most len+1 tokens and the cursor stays inside the list until the final Eol is consumed. "
+       "PARTIAL: the 9 variants that underline an ITEM (OptLocError, WordBoundLoc, EmptySet, UnexpectedDiacritic, DiacriticDoesNotMeetPreReqs*, the word-boundary errors) and all "
+       "interpreter errors are not covered by a theorem (item positions are not tracked by the invariant); they are decided by the c17-spec search:")
 _amend("C12", "text", "PARTIAL: `_,X`, optionals and `&` vs variables are decided by c12-spec",
        "`_,X` is expanded by the PARSER: whenever get_spec_env accepts, it returns exactly the two environments `X _` and `_ X-reversed` with the span of the shorthand "
        "(Props/C12Parse.spec_env_expands, over the parser port, which is compared with Parser::parse on ~40k lines per run). PARTIAL: that the interpreter then treats the two "
